@@ -18,7 +18,9 @@ namespace BS.Attrs
 
 /-! ### Python values an attribute can be given -/
 
-/-- A Python value assigned to / stored in an attribute dictionary.
+/-- A Python value assigned to / stored in an attribute dictionary. `int`/`float`/`str`/`list`/`tuple` stand for
+    *instances* (`isinstance`) of these types, proper subclasses included (an `IntEnum` member, a unit class `Px(int)`,
+    a `float` subclass, a `str` subclass; `bool` is its own constructor), with their inherited `__str__`.
 * `float text isZero`: a float, carried with its `str()` (CPython's shortest-repr algorithm is not modelled; the text is
   data of the value) and whether it compares equal to `0`/`False`;
 * `list cls l`: a list of strings, `cls` names the list class (0 = `list`, 1 = `AttributeValueList`, ≥2 = a subclass given
